@@ -568,8 +568,8 @@ class Execution:
             sim.viol("C01", "output_keys", "returned output keys differ from the requested set", f"{sorted(map(repr, got))} vs {sorted(map(repr, cfg.requested))}")
         bad = []
         for ds in cfg.requested:
-            if ds not in got or got[ds] is None:
-                bad.append((repr(ds), "missing"))
+            if ds not in got or type(got[ds]).__name__ == "_NotFetched" or (got[ds] is None and cfg.expected[ds] is not None):
+                bad.append((repr(ds), "missing"))  # never fetched (a value that is legitimately None is not "missing")
             elif got[ds] != cfg.expected[ds]:
                 bad.append((repr(ds), repr(got[ds])[:200], "expected", repr(cfg.expected[ds])[:200]))
         if bad:
